@@ -8,6 +8,10 @@ import (
 	"github.com/antonmedv/expr/file"
 )
 
+func isFloat(t reflect.Type) bool {
+	return t != nil && (t.Kind() == reflect.Float32 || t.Kind() == reflect.Float64)
+}
+
 type fold struct {
 	applied bool
 	err     *file.Error
@@ -67,6 +71,12 @@ func (fold *fold) Exit(node *Node) {
 		case "/":
 			if a, ok := n.Left.(*IntegerNode); ok {
 				if b, ok := n.Right.(*IntegerNode); ok {
+					if isFloat(a.Type()) || isFloat(b.Type()) {
+						// Literals retyped to a float parameter divide as
+						// floats at run time; integer division here would
+						// change the result.
+						return
+					}
 					if b.Value == 0 {
 						fold.err = &file.Error{
 							Location: (*node).Location(),
